@@ -375,6 +375,10 @@ func emitProbe(cw *caseWriter, what string, f func() string) {
 //
 //	getter \t C17 \t <row Val> \t <getter> \t K:<hex key> \t <ext> \t <impl Dyn | panic …>
 func emitGetter(cw *caseWriter, row jsonline.Row, getter, key string, call func(jsonline.Row) interface{}) {
+	emitGetterFor(cw, "C17", row, getter, key, call)
+}
+
+func emitGetterFor(cw *caseWriter, prop string, row jsonline.Row, getter, key string, call func(jsonline.Row) interface{}) {
 	ext := map[string]string{}
 	extForValue(row, ext)
 	if raw, ok := row.Get(key); ok {
@@ -396,7 +400,7 @@ func emitGetter(cw *caseWriter, row jsonline.Row, getter, key string, call func(
 		impl = dynStr(res)
 	}
 	cw.count("getter:" + getter)
-	cw.emit("getter "+getter+" "+key+" "+before, true, "getter", "C17", before, getter, "K:"+hx([]byte(key)), extStr(ext), impl)
+	cw.emit("getter "+getter+" "+key+" "+before, true, "getter", prop, before, getter, "K:"+hx([]byte(key)), extStr(ext), impl)
 }
 
 // useRow calls the readers of a row (whatever it is) — for rows handed back together with an error.
